@@ -48,7 +48,7 @@ impl Property for C15 {
         vec!["'budget allows' is taken as an effectively unbounded budget (20 MB per tick) for the promptness clause; smaller budgets are covered by C14's rule".into()]
     }
     fn pbt(&self, tier: Tier) -> PbtCfg {
-        PbtCfg { cases: tier.pick(120_000, 4_000_000), max_len: tier.pick(1500, 5000), shrink_ms: 120_000 }
+        PbtCfg { cases: tier.pick(120_000, 2_000_000), max_len: tier.pick(1500, 5000), shrink_ms: 120_000 }
     }
     fn required_labels(&self) -> Vec<&'static str> {
         vec!["short_tick", "ack_lost", "ack_delayed_3s", "rel_slice_sent", "resent"]
